@@ -127,7 +127,7 @@ def _wdtype(dt):
     return "int8" if dt in ("int8", "int16") else "uint8"
 
 
-def _conv_like(net, kind, k, s, pad, act, cout=None, dil=1, per_channel=False, dm=1, dyn=False, bias=True):
+def _conv_like(net, kind, k, s, pad, act, cout=None, dil=1, per_channel=False, dm=1, dyn=False, bias=True, wzp8=0):
     if not _hw4(net):
         return False
     x = net.cur
@@ -147,7 +147,7 @@ def _conv_like(net, kind, k, s, pad, act, cout=None, dil=1, per_channel=False, d
         wshape = [1, k, k, cout]
     nsc = cout if per_channel else 1
     wsc = [0.004 + 0.0007 * (i % 5) for i in range(nsc)]
-    wzp = 0 if wdt == "int8" else 121
+    wzp = wzp8 if wdt == "int8" else 121
     if dyn:
         wi = net.act(wshape, wdt, q=(wsc[0], wzp), name="dynw%d" % len(net.tensors))
         net.inputs.append(wi)
@@ -207,6 +207,23 @@ def _conv_again(net, dil=None):
     bi = net.const([wshape[0]], bdt, "bias", scale=[net.scale(x) * v for v in wsc], zp=0)
     y = net.act([n, oh, ow, wshape[0]], t["dtype"])
     net.op("CONV_2D", [x, wi, bi], [y], ("Conv2DOptions", opts), version=o["version"])
+    return True
+
+
+@inst("conv_twins_shared", "r")
+def _conv_twins_shared(net):
+    """two 3x3 convolutions of the SAME input that share the weight tensor AND the bias tensor and differ only in their output quantisation
+    (both results are network outputs): everything a cache of encoded weights or scales can be keyed on is equal except the OFM scale"""
+    if not _hw4(net) or net.T(net.cur)["shape"][3] > 64:
+        return False
+    x = net.cur
+    if not _conv_like(net, "conv", 3, 1, PAD_SAME, "NONE", cout=8):
+        return False
+    o = net.ops[-1]
+    t = net.T(x)
+    y1 = o["outputs"][0]
+    y2 = net.act(net.T(y1)["shape"], t["dtype"], q=(net.scale(y1) * 4.0, net.zp(y1)))
+    net.op("CONV_2D", [x, o["inputs"][1], o["inputs"][2]], [y2], o["opts"], version=o["version"])
     return True
 
 
@@ -282,6 +299,10 @@ def _fc(net, units=10):
 # convolutions with constant weights and bias that stay on the CPU (stride 4 is not supported by the NPU)
 inst("cpu_conv_s4")(lambda n: _conv_like(n, "conv", 3, 4, PAD_SAME, "NONE"))
 inst("cpu_dw_s4", "t")(lambda n: _conv_like(n, "dw", 3, 4, PAD_SAME, "RELU"))
+# int8 weights with a non-zero zero point (legal per-tensor quantisation): such an operator stays on the CPU; with --force-symmetric-int-weights the
+# compiler zeroes the zero point of operators it accelerates - a stride-4 operator stays on the CPU either way and must keep its weights' parameters
+inst("cpu_dw_s4_asym", "t")(lambda n: _conv_like(n, "dw", 3, 4, PAD_SAME, "NONE", wzp8=5))
+inst("cpu_conv_s4_asym", "t")(lambda n: _conv_like(n, "conv", 3, 4, PAD_SAME, "NONE", wzp8=-7))
 
 
 @inst("cpu_conv_s4_pair")
@@ -949,6 +970,27 @@ def _pack(net, axis, rank3):
     return True
 
 
+def _pack2(net, axis):
+    """PACK of rank-2 values [h*w, c] (the current tensor flattened) along `axis` (negative axes count from the end of the RESULT's dimensions)"""
+    x = net.cur
+    t = net.T(x)
+    if not _hw4(net) or t["shape"][0] != 1 or t["shape"][1] * t["shape"][2] > 64:
+        return False
+    new = [t["shape"][1] * t["shape"][2], t["shape"][3]]
+    shp = net.const([2], "int32", "data", values=new)
+    y2 = net.act(new, t["dtype"], q=(net.scale(x), net.zp(x)))
+    net.op("RESHAPE", [x, shp], [y2], ("ReshapeOptions", dict(NewShape=new)))
+    o = net.const(new, t["dtype"], "data", scale=[net.scale(x)], zp=net.zp(x))
+    pos = axis if axis >= 0 else 3 + axis
+    out = new[:pos] + [2] + new[pos:]
+    y = net.act(out, t["dtype"], q=(net.scale(x), net.zp(x)))
+    net.op("PACK", [y2, o], [y], ("PackOptions", dict(ValuesCount=2, Axis=axis)))
+    return True
+
+
+inst("pack2_am1", "r")(lambda n: _pack2(n, -1))
+inst("pack2_am2", "r")(lambda n: _pack2(n, -2))
+inst("pack2_a1", "r")(lambda n: _pack2(n, 1))
 inst("pack_a0", "r")(lambda n: _pack(n, 0, True))
 inst("pack_a1", "r")(lambda n: _pack(n, 1, True))
 inst("pack_a3", "r")(lambda n: _pack(n, 3, True))
